@@ -60,6 +60,14 @@ def mkMonthPlus (p : MonthPlus) : Res Int :=
 /-- `_ymd(y, m, d)` -/
 def ymdDate (y m d : Int) : Res Int := mkMonthPlus (Gen.ymd y m d)
 
+/-- the business-day block constructs one datetime per update of `t` (`t + (7-wday)*DAY`, `t + DAY*(7*w)`, `t += DAY*d`);
+each of them raises OverflowError outside the representable range, also when the final date exists
+(`dt_bump(datetime(1,1,3), '-1b')`: the intermediate `t - 7 days` does not).  `offs` are the offsets of these datetimes from
+the start, in days (`Gen.bOffPath`); the result is the last one. -/
+def walkDays (t : Int) : Int → List Int → Res Int
+  | cur, [] => .ok cur
+  | _, k :: ks => (checkRange (t + k * DAYUS)).bind fun t' => walkDays t t' ks
+
 /-- one period token applied to `t` (lines 391-418; which letter does what is `Gen.bumpUnit`) -/
 def applyStep (t : Int) : Step → Res Int
   | .days k => checkRange (t + k * DAYUS)
@@ -67,7 +75,7 @@ def applyStep (t : Int) : Step → Res Int
   | .ymdShift dy dm =>
       let p := ymdOf t
       ymdDate ((p.y : Int) + dy) ((p.m : Int) + dm) (p.d : Int)
-  | .bday n => checkRange (t + Gen.bOff (wdOf t) n * DAYUS)
+  | .bday n => walkDays t t (Gen.bOffPath (wdOf t) n)
 
 /-! ### the tokenizer: `period = ^[-+]{0,1}[0-9]+[<units>]{1}` applied repeatedly (lines 386-390) -/
 
@@ -138,5 +146,18 @@ def bumpOne (t : Int) : BumpArg → Res Int
 def dtBump (t : Int) : List BumpArg → Res Int
   | [] => .ok t
   | b :: bs => (bumpOne t b).bind fun t' => dtBump t' bs
+
+/-- `dt(t, *bumps)` for a datetime `t` (lines 560-561): `reduce(dt_bump, args1, t)`, one `dt_bump` call per argument -/
+def dtReduce (t : Int) : List BumpArg → Res Int
+  | [] => .ok t
+  | b :: bs => (dtBump t [b]).bind fun t' => dtReduce t' bs
+
+/-- `is_period(bump)`: the `period` regex finds a token at the head of the text AS WRITTEN (the regex lists both cases) -/
+def isPeriod (s : String) : Bool := (nextToken s.toList).isSome
+
+/-- `dt(bump)` for a period string (lines 573-574): `dt_bump(dt(0), bump)` where `dt(0)` is today at midnight.  Text that is
+not a period (e.g. a named tenor: `is_period('spot')` is False) goes to the date parser instead (`none` here: see C04). -/
+def dtOfBump (today : Int) (s : String) : Option (Res Int) :=
+  if isPeriod s then some (dtBump today [.str s]) else none
 
 end Pyg.Bump
